@@ -267,6 +267,33 @@ func (fr *Frame) cutLoop(li *loopInfo, st *State) {
 	}
 	// havoc heaps written in the loop
 	hs, all := fr.loopWrites(li)
+	fe.loopWritten = map[string]bool{}
+	for b := range li.body {
+		for _, in := range b.Instrs {
+			stI, ok := in.(*ssa.Store)
+			if !ok {
+				continue
+			}
+			root := stI.Addr
+			for {
+				if f, ok := root.(*ssa.FieldAddr); ok {
+					root = f.X
+					continue
+				}
+				if ia, ok := root.(*ssa.IndexAddr); ok {
+					root = ia.X
+					continue
+				}
+				break
+			}
+			if al, ok := root.(*ssa.Alloc); ok {
+				if t, ok := fr.vals[al]; ok {
+					fe.loopWritten[t.S] = true
+				}
+			}
+		}
+	}
+	defer func() { fe.loopWritten = nil }()
 	if all {
 		fe.havocHeaps(st, "loop", nil)
 	} else {
@@ -571,6 +598,8 @@ func (fr *Frame) nilCheck(st *State, in ssa.Instruction, p ssa.Value) {
 func (fr *Frame) instr(b *ssa.BasicBlock, in ssa.Instruction, st *State) *Exit {
 	fe := fr.fe
 	fe.curState = st
+	fe.curGuard = st.alive
+	defer func() { fe.curGuard = "" }()
 	switch x := in.(type) {
 	case *ssa.DebugRef:
 		return nil
@@ -881,6 +910,9 @@ func (fe *FuncEnc) newRef(base string) string {
 	for _, p := range fe.inputRefs() {
 		fe.assume(fmt.Sprintf("(not (= %s %s))", n, p))
 	}
+	for _, p := range fe.seenRefs {
+		fe.assume(fmt.Sprintf("(not (= %s %s))", n, p))
+	}
 	fe.allocs = append(fe.allocs, n)
 	return n
 }
@@ -1034,7 +1066,10 @@ func (fr *Frame) unop(b *ssa.BasicBlock, x *ssa.UnOp, st *State) {
 					fe.declConst(n, k)
 					if !fe.cvSeen[n] {
 						fe.cvSeen[n] = true
+						g := fe.curGuard
+						fe.curGuard = "" // a constant of the activation: its type invariant holds on every path
 						fe.assumeTypeInv(n, x.Type())
+						fe.curGuard = g
 					}
 					fr.vals[x] = Term{n, k, x.Type()}
 					return
